@@ -217,3 +217,25 @@ impl MappingsDiff {
 }
 
 // TODO: consider testing internals (see extend_inner_class_names.rs for example)
+
+#[cfg(feature = "verif")]
+pub mod verif {
+	//! Verification hook (feature `verif`): forwarding wrapper only.
+	use super::*;
+
+	pub fn apply_diff_map<const N: usize, Key, Diff, Target, Name, Mapping>(
+		target_namespace: Namespace<N>,
+		diffs: &IndexMap<Key, Diff>,
+		targets: IndexMap<Key, Target>,
+		apply_child: impl Fn(&Diff, Target) -> Result<Target>,
+	) -> Result<IndexMap<Key, Target>>
+		where
+			Key: Debug + Hash + Eq + Clone,
+			Diff: NodeInfo<Action<Name>>,
+			Target: NodeInfo<Mapping>,
+			Name: Debug + PartialEq + Clone,
+			Mapping: FromKey<Key> + GetNames<N, Name>,
+	{
+		super::apply_diff_map(target_namespace, diffs, targets, apply_child)
+	}
+}
